@@ -557,6 +557,15 @@ func (i *interpreter) registerIntrinsics() {
 		in[n] = symOrReal(func(fr *frame, args []value) value { return &symStr{b: []value{opaque{}}} })
 	}
 	in["Havoc/pkg/common.PercentageChange"] = symOrReal(func(fr *frame, args []value) value { return float64(0) })
+	// time formatting yields the layout text itself (a fixed, well-formed placeholder)
+	in["(time.Time).Format"] = func(fr *frame, args []value) value {
+		fr.i.noteStub("placeholder:(time.Time).Format")
+		return args[1]
+	}
+	in["Havoc/pkg/common.Bmp2Png"] = func(fr *frame, args []value) value {
+		fr.i.noteStub("opaque:common.Bmp2Png")
+		return []value{opaque{}}
+	}
 	in["encoding/json.Marshal"] = func(fr *frame, args []value) value {
 		fr.i.noteStub("opaque:encoding/json.Marshal")
 		return tuple{[]value{opaque{}}, iface{}}
